@@ -163,6 +163,7 @@ func checkC06(c *ev.Ctx) {
 	c.MinEvals(int64(n / 2))
 	par(len(cases), func(i int) {
 		k := cases[i]
+		noteCase(k.ID)
 		if !want(c, k.ID) {
 			return
 		}
